@@ -35,11 +35,16 @@ EXTENDS C18Defs, Json
 
 CONSTANTS Slots,        \* set of heap slots
           Level,        \* 1 = small argument alphabets (every history), 2 = full alphabets
-          InitMode,     \* "empty": all slots Nil;  "all": slot 1 ranges over the carrier, slot 2 over Few or Nil
+          InitMode,     \* "empty": all slots Nil;  "all": slot 1 ranges over the carrier, slot 2 over Few or Nil;
+                        \* "big": slot 1 is one of two generic histograms, only Resample / FResample with n in BigNs
           NBSet,        \* widths of the carrier
           MaxCount,     \* counts 0..MaxCount in the carrier
           NewCarrier,   \* BOOLEAN: New ranges over the whole carrier (else over the fixed generic histograms)
           MaxDepth,
+          BigNs,        \* shot numbers for InitMode "big" (the implementation samples in chunks of 10^7 shots:
+                        \* 10^7 - 1, 10^7, 10^7 + 1, 2 * 10^7 sit on the chunk boundary)
+          BigCross,     \* BOOLEAN: in "big" mode both functions on both histograms (else resample on the 2-bit,
+                        \* get_resampled_frequencies on the 1-bit histogram: each call costs seconds)
           ResampleAll,  \* BOOLEAN: enumerate every allowed resampling outcome (widths <= 2), else a canonical one
           Emit,         \* BOOLEAN: print every transition
           EmitBH        \* BOOLEAN: print every behaviour of length MaxDepth
@@ -48,6 +53,9 @@ NB012 == {0, 1, 2}
 NB12  == {1, 2}
 NB3   == {3}
 NB123 == {1, 2, 3}
+BigQuick == {10000000, 20000000}
+BigFull  == {9999999, 10000000, 10000001, 20000000}
+NoBig    == {}
 S2    == {1, 2}
 S3    == {1, 2, 3}
 
@@ -84,7 +92,7 @@ Preds(nb) == IF Level = 1 THEN (IF nb >= 1 THEN { [kind |-> "bit", q |-> 0, v |-
              ELSE { [kind |-> "bit", q |-> q, v |-> v] : q \in 0..(nb - 1), v \in {0, 1} }
                   \cup { [kind |-> "parity", q |-> 0, v |-> v] : v \in {0, 1} }
                   \cup { [kind |-> "all", q |-> 0, v |-> 0], [kind |-> "none", q |-> 0, v |-> 0] }
-ResampleNs == IF Level = 1 THEN {2} ELSE {1, 3}
+ResampleNs == IF InitMode = "big" THEN BigNs ELSE IF Level = 1 THEN {2} ELSE {1, 3}
 \* index sequences for split_frequency_dict: one or two distinct positions, in any order
 IdxSeqs(nb) == { <<q>> : q \in 0..(nb - 1) }
                \cup { s \in { <<p, q>> : p \in 0..(nb - 1), q \in 0..(nb - 1) } : s[1] # s[2] }
@@ -102,6 +110,7 @@ ObsSeq(hp)  == LET o == Obs(hp) IN [s \in 1..Cardinality(Slots) |-> o[s]]
 
 Init ==
   /\ (IF InitMode = "empty" THEN heap = [s \in Slots |-> Nil]
+      ELSE IF InitMode = "big" THEN \E h1 \in {F1a, F2a} : heap = [s \in Slots |-> IF s = 1 THEN h1 ELSE Nil]
       ELSE \E h1 \in Carrier, h2 \in {F1a, F2a, F3b, Nil} : heap = [s \in Slots |-> IF s = 1 THEN h1 ELSE IF s = 2 THEN h2 ELSE Nil])
   /\ pre = heap /\ act = NoAct /\ ret = NoRet /\ d = 0 /\ hist = <<>>
 
@@ -117,6 +126,7 @@ Put(s, h) == [heap EXCEPT ![s] = h]
 \* in "all" mode unary actions are explored on slot 1 with slot 2 empty, binary ones when slot 2 is filled
 UnaryOK(a)  == InitMode = "empty" \/ (a = 1 /\ heap[2] = Nil)
 BinaryOK    == InitMode = "empty" \/ heap[2] # Nil
+NotBig      == InitMode # "big"
 
 New(s, h0, msq, mode, zeros) ==
   /\ (Level = 1 \/ NewCarrier \/ ~Live(heap[s]))
@@ -161,6 +171,7 @@ ResampleChoices(h, n) == IF ResampleAll /\ h.nb <= 2 THEN ResampleAllSet(h, n) E
 
 Resample(dd, a, n) ==
   /\ UnaryOK(a) /\ a \in LiveSlots /\ heap[a].nb >= 1
+  /\ (InitMode = "big" => (dd = 2 /\ (BigCross \/ heap[a].nb = 2)))
   /\ \E r \in ResampleChoices(heap[a], n) :
        Step([op |-> "resample", d |-> dd, a |-> a, n |-> n], [kind |-> "nondet"], Put(dd, r))
 
@@ -198,22 +209,23 @@ FSplitLastRagged(a, b, k) ==
 
 FResample(a, n) ==
   /\ UnaryOK(a) /\ a \in LiveSlots /\ heap[a].nb >= 1
+  /\ (InitMode = "big" => (BigCross \/ heap[a].nb = 1))
   /\ \E r \in ResampleChoices(heap[a], n) :
        Step([op |-> "fresample", a |-> a, n |-> n], [kind |-> "nondet", h |-> r], heap)
 
-NewStep        == d < MaxDepth /\ InitMode = "empty" /\ \E s \in Slots, x \in NewArgs : New(s, x[1], x[2], x[3], x[4])
-AddStep        == d < MaxDepth /\ \E dd \in Slots, a \in Slots, b \in Slots : Add(dd, a, b)
-IAddStep       == d < MaxDepth /\ \E a \in Slots, b \in Slots : IAdd(a, b)
-Agg3Step       == d < MaxDepth /\ Level = 2 /\ \E dd \in Slots, a \in Slots, b \in Slots, c \in Slots : Agg3(dd, a, b, c)
-FSplitLastRaggedStep == d < MaxDepth /\ Level = 2 /\ \E a \in LiveSlots, b \in LiveSlots : \E k \in 0..3 : FSplitLastRagged(a, b, k)
-RemoveStep     == d < MaxDepth /\ \E a \in LiveSlots : \E I \in ISets(heap[a].nb) : Remove(a, I)
-PostSelectStep == d < MaxDepth /\ \E a \in LiveSlots : \E E \in ESets(heap[a].nb) : PostSelect(a, E)
-FilterStep     == d < MaxDepth /\ \E a \in LiveSlots, dd \in Slots : \E P \in Preds(heap[a].nb) : Filter(dd, a, P)
+NewStep        == NotBig /\ d < MaxDepth /\ InitMode = "empty" /\ \E s \in Slots, x \in NewArgs : New(s, x[1], x[2], x[3], x[4])
+AddStep        == NotBig /\ d < MaxDepth /\ \E dd \in Slots, a \in Slots, b \in Slots : Add(dd, a, b)
+IAddStep       == NotBig /\ d < MaxDepth /\ \E a \in Slots, b \in Slots : IAdd(a, b)
+Agg3Step       == NotBig /\ d < MaxDepth /\ Level = 2 /\ \E dd \in Slots, a \in Slots, b \in Slots, c \in Slots : Agg3(dd, a, b, c)
+FSplitLastRaggedStep == NotBig /\ d < MaxDepth /\ Level = 2 /\ \E a \in LiveSlots, b \in LiveSlots : \E k \in 0..3 : FSplitLastRagged(a, b, k)
+RemoveStep     == NotBig /\ d < MaxDepth /\ \E a \in LiveSlots : \E I \in ISets(heap[a].nb) : Remove(a, I)
+PostSelectStep == NotBig /\ d < MaxDepth /\ \E a \in LiveSlots : \E E \in ESets(heap[a].nb) : PostSelect(a, E)
+FilterStep     == NotBig /\ d < MaxDepth /\ \E a \in LiveSlots, dd \in Slots : \E P \in Preds(heap[a].nb) : Filter(dd, a, P)
 ResampleStep   == d < MaxDepth /\ \E a \in LiveSlots, dd \in Slots, n \in ResampleNs : Resample(dd, a, n)
-FPostSelectStep == d < MaxDepth /\ Level = 2 /\ \E a \in LiveSlots : \E E \in ESets(heap[a].nb) : FPostSelect(a, E)
-FStripStep     == d < MaxDepth /\ Level = 2 /\ \E a \in LiveSlots : \E I \in ISets(heap[a].nb) : FStrip(a, I)
-FSplitStep     == d < MaxDepth /\ Level = 2 /\ \E a \in LiveSlots : \E idx \in IdxSeqs(heap[a].nb) : \E des \in Desired(idx) : FSplit(a, idx, des)
-FSplitLastStep == d < MaxDepth /\ Level = 2 /\ \E a \in LiveSlots : \E k \in 0..heap[a].nb : FSplitLast(a, k)
+FPostSelectStep == NotBig /\ d < MaxDepth /\ Level = 2 /\ \E a \in LiveSlots : \E E \in ESets(heap[a].nb) : FPostSelect(a, E)
+FStripStep     == NotBig /\ d < MaxDepth /\ Level = 2 /\ \E a \in LiveSlots : \E I \in ISets(heap[a].nb) : FStrip(a, I)
+FSplitStep     == NotBig /\ d < MaxDepth /\ Level = 2 /\ \E a \in LiveSlots : \E idx \in IdxSeqs(heap[a].nb) : \E des \in Desired(idx) : FSplit(a, idx, des)
+FSplitLastStep == NotBig /\ d < MaxDepth /\ Level = 2 /\ \E a \in LiveSlots : \E k \in 0..heap[a].nb : FSplitLast(a, k)
 FResampleStep  == d < MaxDepth /\ Level = 2 /\ \E a \in LiveSlots, n \in ResampleNs : FResample(a, n)
 
 Next == NewStep \/ AddStep \/ IAddStep \/ RemoveStep \/ PostSelectStep \/ FilterStep \/ ResampleStep
